@@ -439,7 +439,34 @@ func c04ScenarioNotes(c *core.Ctx) {
 				})
 				return true
 			})
-			c.Ob("C04-R5", fd.Name()+"#append-only-when-absent", as.Pos(), nilGuard && dupCheck,
+			// second accepted form: the append lies where a search predicate — a function that
+			// ranges over the notes and returns true exactly when one is SameAs the given note —
+			// was found false for this note
+			absentFact := false
+			ffA := core.NewFuncFlow(fd)
+			if node := ffA.Flow.EnclosingNode(as); node != nil {
+				for leaf, val := range ffA.Flow.CondsAt(node) {
+					pc, ok := ast.Unparen(leaf).(*ast.CallExpr)
+					if !ok || val {
+						continue
+					}
+					pf := core.Callee(info, pc)
+					if pf == nil || !core.InModule(pf.Pkg()) {
+						continue
+					}
+					passes := false
+					argIdx := -1
+					for i, a := range pc.Args {
+						if core.VarOf(info, a) == v {
+							passes, argIdx = true, i
+						}
+					}
+					if passes && c04SameAsSearch(p, pf, argIdx) {
+						absentFact = true
+					}
+				}
+			}
+			c.Ob("C04-R5", fd.Name()+"#append-only-when-absent", as.Pos(), (nilGuard && dupCheck) || absentFact,
 				"a scenario note is appended without checking that the invoice does not already carry the same note: every calculation adds another copy")
 			// removal first
 			ff := core.NewFuncFlow(fd)
@@ -535,4 +562,63 @@ func c04ReadOnly(c *core.Ctx) {
 		})
 		c.Ob("C04-R6", fd.Name()+"#read-only", fd.Decl.Pos(), bad == "", "a read-only operation changes the envelope: "+bad)
 	}
+}
+
+
+// c04SameAsSearch: the function ranges over a list of notes and returns true
+// where `<param argIdx>.SameAs(element)` (or the symmetric call) holds, and
+// false after the loop.
+func c04SameAsSearch(p *core.Program, fn *types.Func, argIdx int) bool {
+	fd := p.RawDeclOf(fn)
+	if fd == nil {
+		return false
+	}
+	sig := fn.Type().(*types.Signature)
+	if sig.Results().Len() != 1 || core.TypeString(sig.Results().At(0).Type()) != "bool" || argIdx >= sig.Params().Len() {
+		return false
+	}
+	note := sig.Params().At(argIdx)
+	info := fd.Pkg.TypesInfo
+	trueUnderMatch, falseAtEnd := false, false
+	for _, s := range fd.Decl.Body.List {
+		switch x := s.(type) {
+		case *ast.RangeStmt:
+			el := core.VarOf(info, x.Value)
+			if f := core.FieldOf(info, x.X); (f == nil || f.Name() != "Notes") && core.VarOf(info, x.X) == nil {
+				return false
+			}
+			ast.Inspect(x.Body, func(n ast.Node) bool {
+				is, ok := n.(*ast.IfStmt)
+				if !ok {
+					return true
+				}
+				sc, ok := ast.Unparen(is.Cond).(*ast.CallExpr)
+				if !ok || len(sc.Args) != 1 {
+					return true
+				}
+				if f := core.Callee(info, sc); f == nil || f.Name() != "SameAs" {
+					return true
+				}
+				a, b := core.VarOf(info, core.RecvExpr(sc)), core.VarOf(info, sc.Args[0])
+				if !((a == note && b == el) || (a == el && b == note)) || el == nil {
+					return true
+				}
+				for _, bs := range is.Body.List {
+					if r, ok := bs.(*ast.ReturnStmt); ok && len(r.Results) == 1 {
+						if tv := info.Types[r.Results[0]]; tv.Value != nil && tv.Value.String() == "true" {
+							trueUnderMatch = true
+						}
+					}
+				}
+				return true
+			})
+		case *ast.ReturnStmt:
+			if len(x.Results) == 1 {
+				if tv := info.Types[x.Results[0]]; tv.Value != nil && tv.Value.String() == "false" {
+					falseAtEnd = true
+				}
+			}
+		}
+	}
+	return trueUnderMatch && falseAtEnd
 }
